@@ -20,7 +20,9 @@ Definition main_only : list name := filter (fun c => negb (existsb (String.eqb c
 (* the code variant, as read from the current sources (both true since 367eb72) *)
 Definition CHK : bool := gen_registry_hit_checks_loading.
 Definition GRD : bool := gen_builtins_init_guarded.
-Theorem C14_side_variant : CHK = true /\ GRD = true /\ gen_is_loading_is_body_frame_of_module = true.
+(* is_loading_module walks the whole caller chain of fibers (a loop over `.caller`), not a fixed number of levels *)
+Definition CHAIN : bool := gen_loading_walks_chain.
+Theorem C14_side_variant : CHK = true /\ GRD = true /\ gen_is_loading_is_body_frame_of_module = true /\ CHAIN = true.
 Proof. vm_compute; repeat split; reflexivity. Qed.
 (* is_loading_module recognises a module body by the EMPTY function name: only the script compiler gets it
    (functions and methods are named by an identifier token, initialisers by an attribute argument, lambdas
@@ -32,8 +34,8 @@ Section Oracles.
   Variables SrcId Body : Type.
   Variable loader : path -> load_result SrcId.
   Variable compiler : path -> SrcId -> comp_result Body.
-  Notation stepM := (step SrcId Body loader compiler B FM CHK GRD).
-  Notation runM := (run_events SrcId Body loader compiler B FM CHK GRD).
+  Notation stepM := (step SrcId Body loader compiler B FM CHK GRD CHAIN).
+  Notation runM := (run_events SrcId Body loader compiler B FM CHK GRD CHAIN).
   Notation loadrunM := (load_and_run SrcId Body loader compiler B FM GRD).
   Notation init := (init_state main_attrs).
 
@@ -133,10 +135,11 @@ Section Oracles.
   Proof. exact (failed_import_registers_nothing SrcId Body loader compiler B FM CHK GRD). Qed.
 
   Theorem C14_raise_delivers : forall st x,
-    (exists h hs, handlers st = h :: hs /\ snd (raise Body st x) = OCaught x /\ dead (fst (raise Body st x)) = dead st
+    (exists h hs, handlers st = h :: hs /\ base_len st < h /\ snd (raise Body st x) = OCaught x /\ dead (fst (raise Body st x)) = dead st
                   /\ handlers (fst (raise Body st x)) = hs
                   /\ List.length (frames (fst (raise Body st x))) <= h)
-    \/ (handlers st = [] /\ snd (raise Body st x) = ODead x /\ dead (fst (raise Body st x)) = Some x).
+    \/ ((handlers st = [] \/ exists h hs, handlers st = h :: hs /\ h <= base_len st)
+        /\ snd (raise Body st x) = ODead x /\ dead (fst (raise Body st x)) = Some x).
   Proof. exact (raise_delivers Body). Qed.
 
   Theorem C14_globals_isolated : forall evs,
@@ -144,10 +147,18 @@ Section Oracles.
   Proof. exact (globals_isolated SrcId Body loader compiler B FM CHK GRD main_attrs C14_side_main_has_builtins). Qed.
 
   Theorem C14_call_enters_defining_module : forall st m,
-    dead st = None -> m < List.length (heap st) -> List.length (frames st) <> FM ->
+    dead st = None -> m < List.length (heap st) -> fiber_depth (frames st) <> FM ->
     let st' := fst (stepM st (ECall m)) in
-    frames st' = mkframe m false :: frames st /\ active st' = m /\ top_mod st' = m.
+    frames st' = mkframe m false false :: frames st /\ active st' = m /\ top_mod st' = m.
   Proof. exact (call_enters_defining_module SrcId Body loader compiler B FM CHK GRD). Qed.
+
+  (* a new fiber runs in the module of its closure; the chain of waiting fibers below it is what is_loading sees *)
+  Theorem C14_fiber_call_enters_module : forall st m,
+    dead st = None -> m < List.length (heap st) ->
+    let st' := fst (stepM st (EFiberCall m)) in
+    frames st' = mkframe m false true :: frames st /\ active st' = m /\ fiber_depth (frames st') = 1
+    /\ forall id, is_loading st' id = is_loading st id.
+  Proof. exact (fiber_call_enters_module SrcId Body loader compiler B FM CHK GRD). Qed.
 
   Theorem C14_return_restores_caller_module : forall st f0 f r,
     dead st = None -> frames st = f0 :: f :: r ->
@@ -189,7 +200,7 @@ Section Oracles.
                       (match e0 with
                        | ESetGlobal _ _ | EDefineGlobal _ _ => active st <> q
                        | ESetAttr m _ _ => m <> q
-                       | EStartImport _ => GRD = true \/ List.length (frames st) <> FM
+                       | EStartImport _ => GRD = true \/ fiber_depth (frames st) <> FM
                        | _ => True end)
                 with
                 | EStartImport _ => fun _ => or_introl (proj1 (proj2 C14_side_variant))
@@ -205,7 +216,7 @@ Section Oracles.
   (* a fresh module has the names of init_built_in_globals and NOTHING else (so `main_only` below must be empty) *)
   Theorem C14_fresh_module_has_only_builtins : forall st p s b,
     dead st = None -> alookup (reg st) p = None -> loader p = LoadOk s -> compiler p s = CompOk b ->
-    List.length (frames st) <> FM ->
+    fiber_depth (frames st) <> FM ->
     let st' := fst (stepM st (EStartImport p)) in
     snd (stepM st (EStartImport p)) = OEntered (List.length (heap st)) b
     /\ active st' = List.length (heap st)
@@ -247,7 +258,7 @@ Proof. vm_compute; reflexivity. Qed.
 
 Theorem C14_startup_names_in_every_module :
   forall (SrcId Body : Type) (loader : path -> load_result SrcId) (compiler : path -> SrcId -> comp_result Body) evs id b,
-  let st := run_events SrcId Body loader compiler B FM CHK GRD (init_state main_attrs) evs in
+  let st := run_events SrcId Body loader compiler B FM CHK GRD CHAIN (init_state main_attrs) evs in
   id = 0 \/ In id (ran st) -> In b (B ++ C) -> exists v, alookup (attrs_of st id) b = Some v.
 Proof.
   exact (fun SrcId Body loader compiler evs id b =>
@@ -262,26 +273,53 @@ Theorem C14_core_in_builtins : forall c, In c C -> In c B.
 Proof. exact (fun c Hc => main_only_empty_incl B C C14_side_no_main_only_names c (in_or_app B C c (or_intror Hc))). Qed.
 
 Theorem C14_mech_refines_spec_tryfree : forall (prog : program) (cm : list (list (list string))) (fuel : nat),
-  tf_prog prog = true -> mech_obs prog cm B FM CHK GRD fuel C = spec_obs prog (B ++ C) FM fuel.
+  tf_prog prog = true -> mech_obs prog cm B FM CHK GRD CHAIN fuel C = spec_obs prog (B ++ C) FM fuel.
 Proof. exact (fun prog cm fuel => mech_refines_spec_tryfree prog cm B C FM C14_core_in_builtins fuel). Qed.
 
 (* THE REFINEMENT, all programs: also with try/catch - caught cycle / load / compile errors and thrown values followed by
    further work, re-imports after a failed import, imports in functions called from try blocks, the frame limit.
    (Stage A above is the special case proved first; it needs neither the handler discipline nor the "zombie" relation.) *)
 Theorem C14_mech_refines_spec : forall (prog : program) (cm : list (list (list string))) (fuel : nat),
-  mech_obs prog cm B FM CHK GRD fuel C = spec_obs prog (B ++ C) FM fuel.
+  mech_obs prog cm B FM CHK GRD CHAIN fuel C = spec_obs prog (B ++ C) FM fuel.
 Proof. exact (fun prog cm fuel => mech_refines_spec prog cm B C FM C14_core_in_builtins fuel). Qed.
 
 (* stage 1: single-module programs *)
 Theorem C14_refines_single_module : forall (ts : list top) (cm : list (list (list string))) (fuel : nat),
-  tf_prog [MOk ts] = true -> mech_obs [MOk ts] cm B FM CHK GRD fuel C = spec_obs [MOk ts] (B ++ C) FM fuel.
+  tf_prog [MOk ts] = true -> mech_obs [MOk ts] cm B FM CHK GRD CHAIN fuel C = spec_obs [MOk ts] (B ++ C) FM fuel.
 Proof. exact (fun ts cm fuel => mech_refines_spec_tryfree [MOk ts] cm B C FM C14_core_in_builtins fuel). Qed.
+
+(* --- fibers: the cycle test looks at the whole caller chain.  Current variant: a cycle closing through two nested
+       fibers is an ImportError; an exception does not cross a fiber boundary.  The variant that looks only at the
+       running fiber and its direct caller (loading_walks_chain = false) re-runs the body: refuted --- *)
+Theorem C14_cycle_through_fibers_is_import_error :
+  let st := w_run w_init [EStartImport "m"; EFiberCall 1; EFiberCall 1; EPushHandler] in
+  fiber_depth (frames st) = 1 /\ List.length (frames st) = 4 /\ is_loading st 1 = true
+  /\ snd (w_step st (EStartImport "m")) = OCaught (XErr (mkerr KImport [cyc_msg "m"]))
+  /\ ran (fst (w_step st (EStartImport "m"))) = [1] /\ loads (fst (w_step st (EStartImport "m"))) = ["m"].
+Proof. exact cycle_through_fibers_is_import_error. Qed.
+
+Theorem C14_exception_does_not_cross_fibers :
+  let st := w_run w_init [EStartImport "m"; EPushHandler; EFiberCall 1] in
+  snd (w_step st (EStartImport "m")) = ODead (XErr (mkerr KImport [cyc_msg "m"])).
+Proof. exact exception_does_not_cross_fibers. Qed.
+
+Theorem C14_cycle_through_two_fibers_refuted_shallow :
+  (let st := w_run_shallow w_init [EStartImport "m"; EFiberCall 1; EPushHandler] in
+   snd (w_step_shallow st (EStartImport "m")) = OCaught (XErr (mkerr KImport [cyc_msg "m"])))
+  /\ (let st := w_run_shallow w_init [EStartImport "m"; EFiberCall 1; EFiberCall 1; EPushHandler] in
+      is_loading st 1 = true
+      /\ snd (w_step_shallow st (EStartImport "m")) = OEntered 2 tt
+      /\ ran (fst (w_step_shallow st (EStartImport "m"))) = [2; 1]
+      /\ loads (fst (w_step_shallow st (EStartImport "m"))) = ["m"; "m"]
+      /\ alookup (reg (fst (w_step_shallow st (EStartImport "m")))) "m" = Some 2
+      /\ is_loading (fst (w_step_shallow st (EStartImport "m"))) 1 = true).
+Proof. exact cycle_through_two_fibers_refuted_shallow. Qed.
 
 (* --- the two repaired defects: behaviour of the current variant, and the old behaviour as refutations on the
        model variant with both booleans false (witnesses by computation; frames_max = 3 instance) --- *)
 Theorem C14_reimport_after_failed_body_reloads :
   exists evs, let st := w_run w_init evs in
-    frames st = [mkframe 0 true] /\ ran st = [1] /\ alookup (reg st) "m" = Some 1 /\ is_loading st 1 = false
+    frames st = [mkframe 0 true true] /\ ran st = [1] /\ alookup (reg st) "m" = Some 1 /\ is_loading st 1 = false
     /\ snd (w_step st (EStartImport "m")) = OEntered 2 tt
     /\ ran (fst (w_step st (EStartImport "m"))) = [2; 1] /\ loads (fst (w_step st (EStartImport "m"))) = ["m"; "m"]
     /\ alookup (reg (fst (w_step st (EStartImport "m")))) "m" = Some 2.
@@ -306,7 +344,7 @@ Proof. exact import_at_frame_limit_refuted_old. Qed.
 
 Theorem C14_reimport_after_failed_body_reports_cycle_refuted_old :
   exists evs, let st := w_run_old w_init evs in
-    frames st = [mkframe 0 true] /\ ran st = [1] /\ is_loading st 1 = false
+    frames st = [mkframe 0 true true] /\ ran st = [1] /\ is_loading st 1 = false
     /\ snd (w_step_old st (EStartImport "m")) = OCaught (XErr (mkerr KImport [cyc_msg "m"])).
 Proof. exact reimport_after_failed_body_reports_cycle_refuted_old. Qed.
 
@@ -351,6 +389,10 @@ Print Assumptions C14_core_in_builtins.
 Print Assumptions C14_mech_refines_spec_tryfree.
 Print Assumptions C14_mech_refines_spec.
 Print Assumptions C14_refines_single_module.
+Print Assumptions C14_fiber_call_enters_module.
+Print Assumptions C14_cycle_through_fibers_is_import_error.
+Print Assumptions C14_exception_does_not_cross_fibers.
+Print Assumptions C14_cycle_through_two_fibers_refuted_shallow.
 Print Assumptions C14_reimport_after_failed_body_reloads.
 Print Assumptions C14_import_at_frame_limit_is_clean.
 Print Assumptions C14_import_at_frame_limit_refuted_old.
